@@ -6,6 +6,7 @@
 import Driver.StackFam
 import Driver.SelFam
 import Driver.GenFam
+import Driver.GenerationFam
 open Driver
 
 def dispatch (stdin stdout : IO.FS.Stream) (line : String) : IO String := do
@@ -13,6 +14,7 @@ def dispatch (stdin stdout : IO.FS.Stream) (line : String) : IO String := do
   | "stack" :: args => pure (StackFam.handle args)
   | "sel" :: args => SelFam.handle stdin stdout args
   | "gen" :: args => GenFam.handle stdin stdout args
+  | "generation" :: args => GenerationFam.handle stdin stdout args
   | "ping" :: _ => pure "pong"
   | _ => pure "bad-family"
 
